@@ -98,3 +98,14 @@ Definition ui_chk_r (c : ui_case) : bool :=
     | None => false
     end
   end.
+
+Definition explain_r (W : world) (root : N) (refs : list ref) (i : N) : N :=
+  match find_file (w_G W) root with
+  | Some f =>
+    fold_left N.max
+      (flat_map (fun r => map (ev_class W f i) (snd (run_r W f (ref_prog (root_pkg W root) r)))) refs) 0%N
+  | None => 0%N
+  end.
+
+Definition ex_chk_r (c : ex_case) : bool :=
+  match c with XC W root refs i cls => N.eqb (explain_r W root refs i) cls end.
